@@ -14,6 +14,17 @@
    schedule [l : list act] from the initial state: any number of concurrent requests with
    distinct or clashing ids, matching / duplicate / foreign responses, receivers reading or
    abandoning the channel (ARecv happens or not), cancellation at any point.
+   Limits of the statements (disclosed): the WRITE of the request is not an action of the model
+   - a response may arrive at any point after ARegister, which covers "immediately after the
+   request was written" only because the fixed SendIQ registers before it writes (client.go /
+   component.go; a change of that order alters no Coq definition, it is the harness' case of a
+   response routed from inside the transport's Write that notices).  "Never blocks" is about
+   the pending-table code: the ROrd step stands for the whole ordinary routing including the
+   user's handlers, which for a Component run on the receive goroutine.  [panicked] tracks the
+   two crashes this code can cause itself, send on a closed channel and double close; a nil
+   context handed to SendIQ is caller misuse outside the quantifier.  A response taken between
+   ARegister and AUnregister (failed write, duplicate id from the peer) counts as delivered on
+   a channel nobody holds.
    What is runtime and NOT proved here: that the real scheduler's atomic actions are the
    model's (checked by forced schedules and stress in the harness), and fairness — "never
    blocks" is proved as: no routing goroutine is ever in a state where its next step is
@@ -60,15 +71,18 @@ Proof. exact reach_right_owner. Qed.
 Theorem C07_never_blocks : forall l k, blocked (c_run c_init l) k = false.
 Proof. exact reach_never_blocks. Qed.
 
-(* ... and each step moves it strictly closer to completion (rank: RStart 3, RSend/RCloseOrd
-   2, RClose/ROrd 1, RDone 0), so a synchronous (component-style) route call returns after
-   at most three steps whatever the other goroutines do in between *)
-Theorem C07_router_progress : forall l k t,
+(* ... and it is finished as soon as it has been scheduled rank-many - at most three - times
+   (rank: RStart 3, RSend/RCloseOrd 2, RClose/ROrd 1, RDone 0), whatever the other goroutines,
+   requesters and cancellers do in between: [steps_of k l'] counts the ARouter k in l'.  So a
+   synchronous (component-style) route call returns after at most three steps. *)
+Theorem C07_router_finishes_any_schedule : forall l k t l',
   let s := c_run c_init l in
-  nth_error (routers s) k = Some t ->
-  exists t', nth_error (routers (c_step s (ARouter k))) k = Some t' /\ r_iq t' = r_iq t /\
-             rank (r_pc t') <= pred (rank (r_pc t)).
-Proof. exact reach_progress. Qed.
+  nth_error (routers s) k = Some t -> rank (r_pc t) <= steps_of k l' ->
+  exists t', nth_error (routers (c_run s l')) k = Some t' /\ r_iq t' = r_iq t /\ r_pc t' = RDone.
+Proof. exact reach_finishes. Qed.
+
+Theorem C07_rank_at_most_three : forall pc, rank pc <= 3.
+Proof. exact rank_le_3. Qed.
 
 (* every response that arrived is accounted for exactly once: handed to the ordinary routes,
    or delivered on a channel (read or buffered), or still with its routing goroutine *)
@@ -83,7 +97,57 @@ Theorem C07_conservation_quiescent : forall l,
   Permutation (arrived s) (ordinary s ++ delivered s).
 Proof. exact conservation_quiescent. Qed.
 
-(* a response whose id has a pending entry (context not ended) is delivered on that
+(* THE FUNCTIONAL CLAUSE UNDER EVERY INTERLEAVING.  The lookup step of a goroutine routing a
+   response: if the id has an entry, the entry is removed in that same step and the goroutine
+   now holds the entry's channel - about to send (context live) or to close it and route
+   ordinarily (context ended) ... *)
+Theorem C07_hit_step : forall l k t c ch,
+  let s := c_run c_init l in
+  nth_error (routers s) k = Some t -> r_pc t = RStart -> rreq (r_iq t) = false ->
+  lookup (rid (r_iq t)) (table s) = Some c -> nth_error (chans s) c = Some ch ->
+  let s' := c_step s (ARouter k) in
+  exists t', nth_error (routers s') k = Some t' /\ r_iq t' = r_iq t /\
+    r_pc t' = (if c_done ch then RCloseOrd c else RSend c) /\
+    lookup (rid (r_iq t)) (table s') = None /\ chans s' = chans s /\ ordinary s' = ordinary s.
+Proof. exact reach_hit_step. Qed.
+
+(* ... and from there on, whatever is scheduled afterwards (l' arbitrary: the requester reading
+   or not, cancellation, the canceller, re-registration of the same id, other responses with
+   the same id, other goroutines): the goroutine only ever moves RSend c -> RClose c -> RDone
+   (never to the ordinary routes), and once it is done channel c - the channel of the request
+   whose entry it took - is closed and holds exactly its response (read or still buffered),
+   under the request's id.  If the tag tells this copy apart from every other arrival, the
+   response appears nowhere in the ordinary routes. *)
+Theorem C07_hit_delivers_any_schedule : forall l k t c l',
+  let s := c_run c_init l in
+  nth_error (routers s) k = Some t -> r_pc t = RSend c ->
+  let s' := c_run s l' in
+  exists t', nth_error (routers s') k = Some t' /\ r_iq t' = r_iq t /\
+    (r_pc t' = RSend c \/ r_pc t' = RClose c \/ r_pc t' = RDone) /\
+    (r_pc t' = RDone ->
+       exists ch', nth_error (chans s') c = Some ch' /\ c_closed ch' = true /\
+                   contents ch' = [r_iq t] /\ c_owner ch' = rid (r_iq t)) /\
+    (cnt (r_iq t) (arrived s') = 1 -> cnt (r_iq t) (ordinary s') = 0).
+Proof. exact reach_hit_delivers. Qed.
+
+(* the twin for a response racing with cancellation (the entry's context had ended when it
+   was taken): under every later schedule the goroutine moves RCloseOrd c -> ROrd -> RDone,
+   channel c is closed WITHOUT a value and stays so, and once the goroutine is done the
+   response is in the ordinary routes - exactly once if its tag is unique. *)
+Theorem C07_cancelled_hit_any_schedule : forall l k t c l',
+  let s := c_run c_init l in
+  nth_error (routers s) k = Some t -> r_pc t = RCloseOrd c ->
+  let s' := c_run s l' in
+  exists t', nth_error (routers s') k = Some t' /\ r_iq t' = r_iq t /\
+    (r_pc t' = RCloseOrd c \/ r_pc t' = ROrd \/ r_pc t' = RDone) /\
+    (r_pc t' = ROrd \/ r_pc t' = RDone ->
+       exists ch', nth_error (chans s') c = Some ch' /\ c_closed ch' = true /\ contents ch' = []) /\
+    (r_pc t' = RDone -> In (r_iq t) (ordinary s') /\
+       (cnt (r_iq t) (arrived s') = 1 -> cnt (r_iq t) (ordinary s') = 1)).
+Proof. exact reach_cancelled_hit. Qed.
+
+(* the same for the uninterrupted run of the routing goroutine, with the full final state:
+   a response whose id has a pending entry (context not ended) is delivered on that
    request's channel, the channel is then closed, the entry removed, nothing goes to the
    ordinary routes and no other channel changes.  s is ANY reachable state with the entry
    present. *)
@@ -233,6 +297,20 @@ Example C07_example :
      [RDone; RDone; RDone; RDone; RDone; RDone; RDone; RDone], []).
 Proof. vm_compute. reflexivity. Qed.
 
+(* the hypotheses of C07_hit_delivers_any_schedule are satisfiable, and its conclusion is seen
+   on an adversarial continuation: after the lookup hit (goroutine 0 at RSend 0) the request is
+   cancelled and cleaned up, its id registered again (slot 1), a second response with the id
+   arrives and is routed concurrently, the first requester reads between send and close *)
+Example C07_hit_example :
+  let s := c_run c_init [ARegister 1; AArrive (result 1 10); ARouter 0] in
+  let s' := c_run s [ACancel 0; ACancelDelete 0; ARegister 1; AArrive (result 1 11); ARouter 1;
+                     ARouter 0; ARecv 0; ARouter 1; ARouter 0; ARouter 1; ARecv 1] in
+  (map r_pc (routers s), steps_of 0 [ARouter 1; ARouter 0; ARecv 0; ARouter 0],
+   map (fun ch => (c_owner ch, contents ch, c_closed ch)) (chans s'), ordinary s', map r_pc (routers s'))
+  = ([RSend 0%nat], 2%nat,
+     [(1, [result 1 10], true); (1, [result 1 11], true)], [], [RDone; RDone]).
+Proof. vm_compute. reflexivity. Qed.
+
 (* the hypothesis of C07_early_response_any_time is satisfiable by a non-trivial schedule:
    other requests, a clashing registration, a clashing get, a foreign response, a
    cancellation of another request in between *)
@@ -247,7 +325,11 @@ Print Assumptions C07_at_most_once.
 Print Assumptions C07_closed_is_final.
 Print Assumptions C07_right_owner.
 Print Assumptions C07_never_blocks.
-Print Assumptions C07_router_progress.
+Print Assumptions C07_router_finishes_any_schedule.
+Print Assumptions C07_rank_at_most_three.
+Print Assumptions C07_hit_step.
+Print Assumptions C07_hit_delivers_any_schedule.
+Print Assumptions C07_cancelled_hit_any_schedule.
 Print Assumptions C07_conservation.
 Print Assumptions C07_conservation_quiescent.
 Print Assumptions C07_early_response.
